@@ -1,4 +1,5 @@
 import PintModel.Model.Flight
+import PintModel.Model.Cache
 namespace Driver.C14
 open Pint.Flight
 
@@ -75,6 +76,32 @@ def flightrun (args : List String) : String :=
         | _ => none
       let lockOf := fun k => ((pairs.find? fun p => p.1 == k).map (·.2)).getD 1000000
       runTrace W lockOf init 0 (acts.splitOn " " |>.filter (· != ""))
+  | _ => "bad-op"
+
+
+/-- op: cacheops maxStale "s:k:v:ttl g:k a:d c" → per get "h<v>"/"m", per sweep the sorted keys -/
+def insertNat (x : Nat) : List Nat → List Nat
+  | [] => [x]
+  | y :: ys => if x ≤ y then x :: y :: ys else y :: insertNat x ys
+
+def cacheStep (st : Pint.Cache.Cache × List String) (op : String) : Pint.Cache.Cache × List String :=
+  let (c, out) := st
+  match op.splitOn ":" with
+  | ["s", k, v, ttl] => (Pint.Cache.put c k.toNat! v.toNat! ttl.toNat!, out)
+  | ["g", k] =>
+    let r := Pint.Cache.look c k.toNat!
+    (r.1, (match r.2 with | some v => s!"h{v}" | none => "m") :: out)
+  | ["a", d] => (Pint.Cache.advance c d.toNat!, out)
+  | ["c"] =>
+    let c' := Pint.Cache.sweep c
+    (c', ("[" ++ String.intercalate "," ((c'.entries.map (·.key)).foldr insertNat [] |>.map toString) ++ "]e" ++ toString c'.evictions) :: out)
+  | _ => (c, "bad" :: out)
+
+def cacheops (args : List String) : String :=
+  match args with
+  | [ms, ops] =>
+    let r := (ops.splitOn " " |>.filter (· != "")).foldl cacheStep (Pint.Cache.empty ms.toNat! 0, [])
+    String.intercalate " " r.2.reverse
   | _ => "bad-op"
 
 end Driver.C14
